@@ -69,6 +69,7 @@ fn spec_point(b: &[u8], want: usize) -> Option<u16> {
 
 // @bound packed point numbers on <= 8 symbolic bytes: items 0..3 of iter() equal the spec decoder, count() equals the spec count; unwind 10
 // @c20
+// @c01
 // @timeout 900
 #[cfg_attr(kani, kani::proof)]
 #[cfg_attr(kani, kani::unwind(10))]
@@ -130,6 +131,7 @@ fn spec_delta(b: &[u8], want: usize) -> Option<i32> {
 
 // @bound packed deltas on <= 10 symbolic bytes: items 0..4 of consume_all().iter() equal the spec decoder (8/16/32-bit and zero runs); unwind 12
 // @c20
+// @c01
 // @timeout 900
 #[cfg_attr(kani, kani::proof)]
 #[cfg_attr(kani, kani::unwind(12))]
